@@ -156,6 +156,7 @@ def shard(shard_no, nshards, seed, tier, extra):
         for permissive in (False, True):
             c = dict(cfg)
             c["permissive"] = permissive
+            c["vsize"] = 100_000_000   # no value is replaced by an opaque one (that would turn a constant jump target symbolic)
             reqs.append({"op": "analyze", "code": code.hex(), "stage": "analyze", "cfg": c, "rand_seed": hseed})
         strict = d.call(reqs[0], timeout=120)
         perm = d.call(reqs[1], timeout=120)
@@ -190,6 +191,7 @@ def replay(path):
     for permissive in (False, True):
         c = dict(case["cfg"])
         c["permissive"] = permissive
+        c["vsize"] = 100_000_000
         out.append(d.call({"op": "analyze", "code": code.hex(), "stage": "analyze", "cfg": c, "rand_seed": 7}))
     d.stop()
     judge(res, code, set(), case["cfg"], out[0], out[1])
